@@ -2039,7 +2039,7 @@ func ruleCP11(c *Ctx) *rule {
 
 func ruleCP12(c *Ctx) *rule {
 	r := &rule{ID: "CP12", Engine: "E1+E3", Floor: 1,
-		Statement: "the function that persists the cache writes the JSON encoding of its own in-memory map and nothing else: it does not read the file back, merge, filter or update the map",
+		Statement: "the function that persists the cache writes the JSON encoding of its own in-memory map and nothing else, replacing the file (os.WriteFile, or an open with O_TRUNC / of a fresh O_EXCL file): it does not read the file back, merge, filter or update the map",
 		Necessity: "the run loop's ordering guarantees (invalidate, then run, then record) are statements about what is in memory when the persist is called; a persist that merges with what is on disk or skips entries silently undoes the invalidation"}
 	rl := c.runLoop()
 	rl.describe(r)
@@ -2084,7 +2084,21 @@ func ruleCP12(c *Ctx) *rule {
 				if !isMarshalOfMap(m.site.Common().Args[1]) {
 					probs = append(probs, "the bytes written are not json.Marshal of the cache's own map field")
 				}
-			case "os.Rename", "os.CreateTemp", "os.Remove", "(*os.File).Sync", "os.OpenFile", "os.Create", "os.MkdirAll", "(*os.File).Chmod", "os.Chmod":
+			case "os.OpenFile":
+				// the document must replace what is there: opened without O_TRUNC (and not as a fresh O_EXCL file) a shorter
+				// document leaves the tail of the old one behind it and the file no longer decodes
+				if len(m.site.Common().Args) >= 2 {
+					if fl, isC := constInt(m.site.Common().Args[1]); isC {
+						oTrunc, oExcl, oAppend := osConst(c.Prog, "O_TRUNC"), osConst(c.Prog, "O_EXCL"), osConst(c.Prog, "O_APPEND")
+						switch {
+						case fl&oAppend != 0:
+							probs = append(probs, "the cache file is opened with O_APPEND: every persist adds another document behind the previous one")
+						case fl&oTrunc == 0 && fl&oExcl == 0:
+							probs = append(probs, "the cache file is opened for writing without O_TRUNC: a document shorter than the previous one leaves its tail in place and the file no longer decodes")
+						}
+					}
+				}
+			case "os.Rename", "os.CreateTemp", "os.Remove", "(*os.File).Sync", "os.Create", "os.MkdirAll", "(*os.File).Chmod", "os.Chmod":
 				// write-to-temporary-then-rename and friends: still a write of the same bytes
 			default:
 				probs = append(probs, "persists with "+m.callee)
